@@ -417,8 +417,17 @@ def run(chk, replay=None):
             order = sorted(cs)
             r = eval_form([cs[k] for k in order], c0, [xs[nodes.index(k)] for k in order]) if order else c0
             if r != '0':
-                why = unsafe_nodal(net, int(node))
-                if not why and net.analysis == 'ac' and any(c[1] in 'CL' and int(node) in (c[2], c[3]) for c in net.cpts):
+                # which patch switches the printed equation matches tells which defects are still present
+                fl = {'c': 0, 'j': 0}
+                for variant in NODAL_VARIANTS:
+                    if replies[variant] is not None and node in replies[variant]:
+                        mm = replies[variant][node]
+                        if same_eq(({k: v for k, v in mm[0].items() if k != '0'}, mm[1]), got):
+                            vf = {'asis': (0, 0), 'c1j0': (1, 0), 'c0j1': (0, 1), 'patched': (1, 1)}[variant]
+                            fl = {'c': max(fl['c'], vf[0]), 'j': max(fl['j'], vf[1])}
+                why = None if fl['c'] else unsafe_nodal(net, int(node))
+                if not why and not fl['j'] and net.analysis == 'ac' and \
+                        any(c[1] in 'CL' and int(node) in (c[2], c[3]) for c in net.cpts):
                     why = ['ac-impedance-missing-j']
                 key = {'formulation': 'nodal', 'defect': why[0] if why else 'unexplained'}
                 cex(key, {'input': {'netlist': net.lines(), 'analysis': net.analysis, 'point': fstr(net.point), 'node': node},
